@@ -3,6 +3,7 @@ from vf.tasks.t_fock import circuit_labels
 
 LEVEL = "other"
 EXPLANATION = ("BOUNDED, exact arithmetic (xlift), 9 circuits incl. photon-carrying heralds, heralds with input != output modes, loss, ancillas; inputs of 1-2 photons; post-selection none / rule / predicate: Analyzer probabilities = sampler probability of the heralded output (independent spec), every accepted output listed, performance = mean accepted total, error rate = 1 - mean accepted-and-expected fraction with the expectation dict in a different order than the inputs (float tolerance 1e-12: the code returns a float); QuickSampler distribution = sampler distribution conditioned on heralds, no lost photon, <=1 photon per mode for threshold detection, post-selection, renormalised (both detector modes, three post-selection shapes). 'Squared simulator amplitudes = sampler probabilities' follows from C03 + C04 meeting the same spec. PROVED unbounded (pyvc): Rule.validate (rules over <=3 symbolic modes with <=2 allowed totals) accepts a state iff the photon total over its modes is an allowed total; State accessors. The emulator objects themselves (Analyzer, QuickSampler) are not under unbounded contracts. ADDED LATER (bounded): vacuum inputs, a circuit without user-visible modes, predicates written for State objects, expectation lists naming an output twice, the analyzer reused across calls (unit shared with C11). PROVED LATER (pyvc): PostSelection.add appends exactly one rule, registers its modes, raises ValueError iff a value is negative or (without multi_rules) a mode already carries a rule, and changes nothing when it raises.")
+EXPLANATION = EXPLANATION + ' ADDED IN ROUNDS 5-8. PROVED (pyvc): PostSelection.validate is the conjunction of its rules (5 shapes), process_post_selection hands a PostSelection object on as the object it is, check_int. BOUNDED: two single-photon heralds; predicates that use State semantics for the QuickSampler; a PostSelection object extended by the user after hand-over; Sampler parameter-update histories.'
 ASSUMPTIONS = ["A1: floats are exact reals", "circuit matrices restricted to exact (rational Cayley / sqrt-rational) unitaries inside the bound"]
 TRUSTED = ["xlift field + numpy proxy + exact permanent", "spec formulas vf/spec/fock.py", "z3 5.1"]
 
